@@ -433,7 +433,7 @@ def run(ctx):
     # the tie through translation (DESIGN.md §11.6): matrix product, identity, affine * vector, translation, scaling as written
     # are the terms `Covfie.RImp.*_translated` are about; if one of them changed, this run takes the thorough tier's inputs
     from harness import translib as T
-    tie = T.Tie(ctx, list(T.RIMP))
+    tie = T.Tie(ctx, list(T.RIMP) + ["context"])
     if tie.changed() and ctx.quick:
         class Deep:
             quick, seed, tier, work, replay, prop = False, ctx.seed, ctx.tier, ctx.work, ctx.replay, ctx.prop
